@@ -19,9 +19,11 @@ META = {
                    "re-labelled by unique witness values. z3 proves the restored model's prior, posterior / variational predictive and "
                    "training objective (with prior terms) identical to the original's as functions of the atoms: a piece of state that is "
                    "not carried comes back as a different constant or atom and the outputs differ (sat, replayed).",
-    "bounds": {"quick": "exact (n=2,m=1), SGPR (M=2), variational (M=2), model list of two; save points: constructed / after one eval prediction / after train-eval switch",
+    "bounds": {"quick": "exact (n=2,m=1), SGPR (M=2), variational (whitened+Cholesky, unwhitened+natural with fixed inducing buffer; M=2), KISS-GP "
+                        "(grid buffer; stub grid covariance, training inputs on grid nodes), RFF (weight buffer), Hadamard multitask (IndexKernel), model list of two; save points: constructed / after one eval prediction / after train-eval switch",
                "thorough": "same families with all (mechanism x save point) combinations"},
-    "outside": ["KISS-GP (sparse interpolation tensors) and multitask models (planned)", "bit-for-bit float identity is observed concretely, "
+    "outside": ["Kronecker multitask models (MultitaskKernel + MultitaskGaussianLikelihood: eigendecomposition-based solves); the Hadamard "
+                "(IndexKernel) multitask model is covered", "KISS-GP with training inputs off the grid nodes / real base kernel", "bit-for-bit float identity is observed concretely, "
                 "the solver claim is identity as functions of the state", "rounding"],
     "assumptions": ["reals for floats", "every atom carries a distinct random witness so that restored bytes can be re-labelled"],
 }
@@ -145,6 +147,74 @@ class VarModel(gpytorch.models.ApproximateGP):
         return gpytorch.distributions.MultivariateNormal(self.mean_module(x), self.covar_module(x))
 
 
+class GridIndexStub(K.Kernel):
+    """stub base kernel for KISS-GP: evaluated by GridKernel on the full one-dimensional grid, returns the symbolic SPD table
+    K_UU (by position). The grid itself (a buffer of the interpolation kernel) decides the interpolation weights."""
+    is_stationary = True
+
+    def __init__(self, table):
+        super().__init__()
+        self.table = table
+
+    def forward(self, x1, x2, diag=False, last_dim_is_batch=False, **kw):
+        G = self.table.shape[-1]
+        if x1.shape[-2] != G or x2.shape[-2] != G:
+            raise HarnessError("GridIndexStub: full-grid evaluation only")
+        Kt = self.table.diagonal() if diag else self.table
+        return Kt.unsqueeze(0) if last_dim_is_batch else Kt
+
+
+class KissModel(gpytorch.models.ExactGP):
+    """KISS-GP: the grid is a buffer; the fresh model of the state_dict round trip is built on a DIFFERENT grid"""
+    def __init__(self, x, y, lik, variant, table):
+        super().__init__(x, y, lik)
+        self.mean_module = gpytorch.means.ConstantMean()
+        G = table.shape[-1]
+        h = 0.5 if variant == 0 else 0.75
+        grid = torch.arange(G, dtype=torch.float64) * h - (G // 2) * h + 0.25 * variant
+        gk = K.GridInterpolationKernel(GridIndexStub(table), grid_size=G, num_dims=1, grid_bounds=[(float(grid[1]), float(grid[-2]))])
+        gk.update_grid([grid])
+        self.covar_module = gk
+
+    def forward(self, x):
+        return gpytorch.distributions.MultivariateNormal(self.mean_module(x), self.covar_module(x))
+
+
+class RFFModel(gpytorch.models.ExactGP):
+    """random Fourier features: the sampled weights are a buffer (a fresh model draws different ones)"""
+    def __init__(self, x, y, lik, variant):
+        super().__init__(x, y, lik)
+        self.mean_module = gpytorch.means.ConstantMean()
+        self.covar_module = K.ScaleKernel(K.RFFKernel(num_samples=1, num_dims=1))
+
+    def forward(self, x):
+        return gpytorch.distributions.MultivariateNormal(self.mean_module(x), self.covar_module(x))
+
+
+class HadamardModel(gpytorch.models.ExactGP):
+    """Hadamard multitask model: data kernel x IndexKernel over task indices (second train input)"""
+    def __init__(self, x, i, y, lik, variant):
+        super().__init__((x, i), y, lik)
+        self.mean_module = gpytorch.means.ConstantMean()
+        self.covar_module = K.RBFKernel()
+        self.task_covar_module = K.IndexKernel(num_tasks=2, rank=1, prior=P.LKJCovariancePrior(2, 1.5 + variant, P.GammaPrior(2.0, 3.0 + variant)) if False else None)
+
+    def forward(self, x, i):
+        return gpytorch.distributions.MultivariateNormal(self.mean_module(x), self.covar_module(x).mul(self.task_covar_module(i)))
+
+
+class VarModel2(gpytorch.models.ApproximateGP):
+    """unwhitened strategy with a natural-parameter variational distribution and fixed inducing locations (a buffer)"""
+    def __init__(self, Z):
+        dist = V.NaturalVariationalDistribution(Z.shape[-2])
+        super().__init__(V.UnwhitenedVariationalStrategy(self, Z.clone(), dist, learn_inducing_locations=False))
+        self.mean_module = gpytorch.means.ConstantMean()
+        self.covar_module = K.ScaleKernel(K.RBFKernel())
+
+    def forward(self, x):
+        return gpytorch.distributions.MultivariateNormal(self.mean_module(x), self.covar_module(x))
+
+
 def _lik(variant):
     return gpytorch.likelihoods.GaussianLikelihood(noise_prior=P.LogNormalPrior(-1.0 + variant, 0.5 + variant),
                                                    noise_constraint=GreaterThan(1e-3 if variant == 0 else 1e-2))
@@ -159,6 +229,9 @@ def _symbolize(S, module, prefix):
     for name, b in module.named_buffers():
         if b is None or not b.is_floating_point() or b.numel() == 0 or not torch.isfinite(b).all():
             continue
+        if "grid" in name:
+            continue  # interpolation grids stay concrete (the two variants are built on different grids: a grid that is not
+            # carried shows up as different constants)
         with torch.no_grad():
             b.mul_(1.0 + 0.01 * float(S.rand(1)[0]))  # distinct witness values
         try:
@@ -168,21 +241,41 @@ def _symbolize(S, module, prefix):
         # torch.distributions keep derived attributes of transformed priors in sync through tensor identity; values stay linked
 
 
-def _outputs(S, kind, model, lik, x, xs, y):
+EXACT_KINDS = ("exact", "sgpr", "kiss", "rff", "hadamard")
+VAR_KINDS = ("var", "var2")
+
+
+def _args(kind, x):
+    if kind == "hadamard":
+        return (x, torch.tensor([[0], [1], [1]])[: x.shape[0]] if x.shape[0] > 1 else torch.tensor([[1]]))
+    return (x,)
+
+
+def _outputs(S, kind, model_, lik, x, xs, y):
     """prior, posterior / predictive and training objective of a model, as Sym arrays"""
     out = {}
-    if kind in ("exact", "sgpr") and not model.training:
+    class _M:  # the same model, called with the task indices a Hadamard model needs
+        training = property(lambda self: model_.training)
+        variational_strategy = property(lambda self: model_.variational_strategy)
+        def __call__(self, inp):
+            return model_(*_args(kind, inp))
+        def train(self):
+            return model_.train()
+        def eval(self):
+            return model_.eval()
+    model = _M()
+    if kind in EXACT_KINDS and not model.training:
         # a model that is already in evaluation mode is first used AS IS (no train()/eval() call that could clear caches)
         po = lik(model(xs))
         out["posterior.mean (as restored, no mode switch)"] = as_sym_arr(SH.get(po.mean)).copy()
         out["posterior.cov (as restored, no mode switch)"] = as_sym_arr(SH.get(po.covariance_matrix)).copy()
-    if kind == "var" and not model.training:
+    if kind in VAR_KINDS and not model.training:
         qf = model(xs)
         out["q(f).mean (as restored, no mode switch)"] = as_sym_arr(SH.get(qf.mean)).copy()
         out["q(f).cov (as restored, no mode switch)"] = as_sym_arr(SH.get(qf.covariance_matrix)).copy()
-    if kind in ("exact", "sgpr"):
+    if kind in EXACT_KINDS:
         model.train(); lik.train()
-        mll = gpytorch.mlls.ExactMarginalLogLikelihood(lik, model)
+        mll = gpytorch.mlls.ExactMarginalLogLikelihood(lik, model_)
         out["objective"] = as_sym_arr(SH.get(mll(model(x), y))).copy()
         model.eval(); lik.eval()
         with gpytorch.settings.prior_mode(True):
@@ -194,7 +287,7 @@ def _outputs(S, kind, model, lik, x, xs, y):
         out["posterior.cov"] = as_sym_arr(SH.get(po.covariance_matrix)).copy()
     else:
         model.train(); lik.train()
-        mll = gpytorch.mlls.VariationalELBO(lik, model, num_data=5)
+        mll = gpytorch.mlls.VariationalELBO(lik, model_, num_data=5)
         out["objective"] = as_sym_arr(SH.get(mll(model(x), y))).copy()
         model.eval(); lik.eval()
         qf = model(xs)
@@ -210,6 +303,15 @@ def _build(S, kind, variant, x, y, Z):
         m = ExactModel(x, y, lik, variant)
     elif kind == "sgpr":
         m = SGPRModel(x, y, lik, Z + 0.1 * variant)
+    elif kind == "kiss":
+        m = KissModel(x, y, lik, variant, Z)  # (Z carries the symbolic grid covariance table for this family)
+    elif kind == "rff":
+        m = RFFModel(x, y, lik, variant)
+    elif kind == "hadamard":
+        m = HadamardModel(x, torch.tensor([[0], [1]])[: x.shape[0]], y, lik, variant)
+    elif kind == "var2":
+        m = VarModel2(Z + 0.1 * variant)
+        m.variational_strategy.variational_params_initialized.fill_(1 if variant == 0 else 0)
     else:
         m = VarModel(Z + 0.1 * variant)
         m.variational_strategy.variational_params_initialized.fill_(1 if variant == 0 else 0)
@@ -221,30 +323,53 @@ def _build(S, kind, variant, x, y, Z):
 def roundtrip(S, kind, mechanism, savepoint):
     CTX.sweep_timeout = 400  # original and restored model run the same code: merges are syntactic or cheap; keep misses cheap too
     n, m_, d = 2, 1, 1
-    x = S.randn(n, d, scale=0.8); S.sym_tensor(x, "x")
-    xs = S.randn(m_, d, scale=0.8); S.sym_tensor(xs, "z")
+    sc = 0.4 if kind == "kiss" else 0.8  # KISS-GP: inputs inside the grid bounds of both variants
+    x = S.randn(n, d, scale=sc); S.sym_tensor(x, "x")
+    xs = S.randn(m_, d, scale=sc); S.sym_tensor(xs, "z")
     y = S.randn(n); S.sym_tensor(y, "y")
     Z = S.randn(2, d, scale=0.8)
-    with S.mode():
+    import contextlib
+    with contextlib.ExitStack() as stack:
+        stack.enter_context(S.mode())
+        if kind == "kiss":
+            stack.enter_context(gpytorch.settings.use_toeplitz(False))
+        if kind == "kiss":
+            # training inputs AT grid nodes 2, 3 of the saved model's grid (concrete); K_UU + noise on those nodes = G G^T, so that
+            # the Cholesky pivots of the posterior resolve (filled in below once the symbolic noise is known)
+            Z = torch.eye(6)
+            x = torch.tensor([[-0.5], [0.0]])
         orig, lik = _build(S, kind, 0, x, y, Z)
         _symbolize(S, orig, "o_")
-        if kind == "var":
+        if kind == "kiss":
+            Gs, Gc = S.factor("u", 6)
+            sig_t = lik.noise.clone()
+            sig = as_sym_arr(SH.get(sig_t)).reshape(-1)[0]
+            perm = [2, 3, 0, 1, 4, 5]
+            inv = [perm.index(i) for i in range(6)]
+            J, Jc = Gs @ Gs.T, Gc @ Gc.T
+            for i in range(2):
+                J[i, i] = J[i, i] - sig
+                Jc[i, i] = Jc[i, i] - sig.c
+            with torch.no_grad():
+                Z.copy_(Jc[inv][:, inv])
+            S.put(Z, J[np.ix_(inv, inv)])
+        if kind in VAR_KINDS:
             _symbolize(S, lik, "ol_")
         # history before the save point
         if savepoint in ("predicted", "switched"):
             orig.eval(); lik.eval()
-            _ = orig(xs).mean
+            _ = orig(*_args(kind, xs)).mean
         if savepoint == "switched":
             orig.train(); lik.train(); orig.eval(); lik.eval()
         if savepoint == "training":
             orig.train(); lik.train()
-            _ = orig(x)
+            _ = orig(*_args(kind, x))
         ref = None
         if mechanism == "state_dict":
             sd, sdl = orig.state_dict(), lik.state_dict()
             fresh, flik = _build(S, kind, 1, x.clone(), y.clone(), Z)
             fresh.load_state_dict(sd)
-            if kind == "var":
+            if kind in VAR_KINDS:
                 flik.load_state_dict(sdl)
             rest, rlik = fresh, flik
         elif mechanism == "state_dict_into_used":
@@ -252,9 +377,9 @@ def roundtrip(S, kind, mechanism, savepoint):
             fresh, flik = _build(S, kind, 1, x.clone(), y.clone(), Z)
             _symbolize(S, fresh, "f_")
             fresh.eval(); flik.eval()
-            _ = fresh(xs).mean  # the receiving model has its own caches from its previous state
+            _ = fresh(*_args(kind, xs)).mean  # the receiving model has its own caches from its previous state
             fresh.load_state_dict(sd)
-            if kind == "var":
+            if kind in VAR_KINDS:
                 flik.load_state_dict(sdl)
             rest, rlik = fresh, flik
         elif mechanism == "pickle":
@@ -268,7 +393,7 @@ def roundtrip(S, kind, mechanism, savepoint):
             rest, rlik = copy.deepcopy((orig, lik))
         else:
             raise KeyError(mechanism)
-        if kind in ("exact", "sgpr"):
+        if kind in EXACT_KINDS:
             rlik = rest.likelihood
             lik = orig.likelihood
         if mechanism.startswith("state_dict") and not orig.training:
@@ -332,12 +457,14 @@ def scenarios(tier, seed):
                   ("exact", "deepcopy", "switched"), ("exact", "pickle", "constructed"),
                   ("sgpr", "state_dict", "predicted"), ("sgpr", "state_dict_into_used", "predicted"), ("sgpr", "pickle", "switched"), ("sgpr", "deepcopy", "predicted"),
                   ("var", "state_dict", "constructed"), ("var", "state_dict_into_used", "predicted"), ("var", "pickle", "predicted"), ("var", "deepcopy", "training")]
+        combos += [("kiss", "state_dict", "predicted"), ("kiss", "pickle", "constructed"), ("rff", "state_dict", "constructed"), ("rff", "deepcopy", "predicted"),
+                   ("hadamard", "state_dict", "predicted"), ("hadamard", "pickle", "switched"), ("var2", "state_dict", "constructed"), ("var2", "pickle", "predicted")]
         for k, mth, sp in combos:
             add("roundtrip", kind=k, mechanism=mth, savepoint=sp)
         add("model_list", mechanism="state_dict")
         add("model_list", mechanism="pickle")
     else:
-        for k in ("exact", "sgpr", "var"):
+        for k in ("exact", "sgpr", "var", "kiss", "rff", "hadamard", "var2"):
             for mth in mechs:
                 for sp in saves:
                     add("roundtrip", kind=k, mechanism=mth, savepoint=sp)
